@@ -123,6 +123,28 @@ def run(ctx):
         ctx.violation("write-count", sp_file_line(main.term(units["Compile"]).get("sp")),
                       "the object file is not produced as exactly one 2-byte origin followed by one 2-byte word per statement (%d conversions outside the loop, %d inside)"
                       % (len(once), len(in_loop)))
+    # the destination starts empty: a truncating opener (File::create, fs::write) or an OpenOptions chain with truncate(true)/create_new(true);
+    # otherwise the tail of a longer previous object file survives and the file is not 2(n+1) bytes long
+    from .c08 import OPENERS
+    for b, t, c in main.calls():
+        if b not in region or c not in OPENERS:
+            continue
+        ctx.instance(1)
+        if c.endswith("OpenOptions::open"):
+            e = main.expr(t["args"][0], 16)
+            flags = {}
+            for x in expr_walk(e):
+                if x[0] == "call" and str(x[1]).startswith("std::fs::OpenOptions::") and len(x[2]) == 2 and x[2][1][0] == "const":
+                    flags[str(x[1]).rsplit("::", 1)[1]] = x[2][1][1]
+            ok = bool(flags.get("truncate")) or bool(flags.get("create_new"))
+            how = "OpenOptions{%s}" % ", ".join("%s=%s" % kv for kv in sorted(flags.items()))
+        else:
+            ok = c.endswith(("File::create", "File::create_new", "fs::write"))
+            how = short(c)
+        ctx.oblig(ok, {"destination opened with": how}, "truncating / fresh")
+        if not ok:
+            ctx.violation("destination-not-truncated", sp_file_line(t.get("sp")), "the destination is opened with %s, which keeps the old contents beyond the new image: "
+                          "recompiling a shorter program to the same file leaves stale words behind" % how)
     # when the bytes are collected first, the buffer goes to the destination exactly once
     vec_sinks = [x for x in sinks if "Vec" in x[2] or "Extend" in x[2]]
     file_sinks = [x for x in sinks if x not in vec_sinks]
@@ -156,6 +178,15 @@ def run(ctx):
     ctx.oblig(ok, {"odd length": "Err before any conversion"}, "len % 2 test dominates chunks_exact")
     if not ok:
         ctx.violation("alignment-guard", runf.file_line(), "an odd-length object file is not rejected before the bytes are paired into words")
+    # the whole file is read: one read_to_end on the File itself (a Take/limited reader silently drops the tail)
+    rds = [(b, t, c) for b, t, c in runf.calls() if c and re.search(r"std::io::Read>?::(read_to_end|read_exact|read|read_to_string)$", c) and runf.dominates(b, ch[0][0])]
+    ctx.instance(1)
+    ok = len(rds) == 1 and rds[0][2].endswith("read_to_end") and (rds[0][1].get("arg_tys") or [""])[0].replace("&mut ", "") == "std::fs::File"
+    ctx.oblig(ok, {"object file read": [(short(c).rsplit("::", 1)[-1], (t.get("arg_tys") or [""])[0]) for b, t, c in rds]}, "read_to_end on the File")
+    if not ok:
+        ctx.violation("partial-read", sp_file_line(rds[0][1].get("sp")) if rds else runf.file_line(),
+                      "the loader reads the object file through %s: anything but one read_to_end on the file itself can drop part of it, so the size and alignment "
+                      "guards judge a different image than the file holds" % [(short(c).rsplit("::", 1)[-1], (t.get("arg_tys") or [""])[0]) for b, t, c in rds])
     # closed set of rejections: every branch that turns a file away before/inside from_raw is one of the documented reasons
     from .c03 import _reaching
     def diverting(fn, goals):
